@@ -207,6 +207,11 @@ def parse_dump(path, only=None, skip_if=None, stride=None, keep_if=None):
                 eq = line.index(" = ")
                 name = line[3:eq]
                 buf = [line[eq + 3:]]
+            elif name is None and not cur and " = " in line and line.split(" = ", 1)[0].isidentifier():
+                # a specification with a single variable is dumped without the leading conjunction
+                eq = line.index(" = ")
+                name = line[:eq]
+                buf = [line[eq + 3:]]
             elif line.strip() == "":
                 continue
             else:
